@@ -32,10 +32,25 @@ Clauses covered:
      defaults built once per process / with an encoder fast path for maps of string kind are refuted by TLC inside the check).
   2. TLC prints every configuration / value tree of the same spaces with the statement-level answer; each is loaded /
      walked by the real code and compared.
-Still NOT covered (DESIGN 4 C13): per-field faithfulness of the built-in components' config structs (only the test
-component's fields, a few service::telemetry fields and the secret settings of two real components are compared), what
-extensions actually receive through NotifyConfig (the check marshals the configuration the way otelcol/collector.go does, it
-does not run an extension), the nested Validate() rules of built-in components themselves.
+  (e) the first clause over the REAL BUILT-IN COMPONENTS (part_builtin_overlay, BuiltinSettings.tla): a table of 204 setting
+      paths of the built-in factories available in this module set (otlp receiver; batch, memory_limiter processors; otlp,
+      otlphttp, debug exporters; zpages, memory_limiter extensions; nop receiver / exporter and the forward connector have no
+      settings) with alternative valid values; TLC generates the documents -- every single write, every PAIR of writes within a
+      component (in every validity context of the component), seeded random larger subsets (TLC simulation) -- and prints the
+      statement-level effective configuration of each (the paths that differ from the factory defaults).  The driver takes the
+      factory defaults from the real factories (`settings`: CreateDefaultConfig marshalled by confmap) and loads every document
+      through the same path with the real factories (`overlay-builtin`): conf.Marshal of the typed otelcol.Config is compared AT
+      EVERY PATH of the component with defaults-overlaid-by-the-printed-paths (written secrets by the redaction marker, durations
+      by their value).  Documents the loader rejects (value combinations that are not valid together) give no verdict and are
+      counted.  A mismatch is confirmed by loading the smallest such document alone in a fresh process.  Documented interactions
+      are explicit rows of the module (Presence: otlp receiver protocols; Alias: sending_queue::blocking; Created: sections that
+      come into being with zero values; Shows: case-insensitive verbosity); the variant in which a switch write erases a sibling
+      subtree is refuted by TLC inside the check.
+Still NOT covered (DESIGN 4 C13): the built-in settings that need another component (auth::authenticator, middlewares), the
+deprecated experimental `batcher` section of the otlp exporter (undocumented defaults), zero / empty alternative values of
+omitempty settings (absent and zero are the same rendering), what extensions actually receive through NotifyConfig (the check
+marshals the configuration the way otelcol/collector.go does, it does not run an extension), the nested Validate() rules of
+built-in components themselves.  Known finding C13-sizer-not-in-effective-config (fixes/C13-sizer-marshaltext-value-receiver.patch).
 """
 import json, os, re, random
 import vlib, graphlib
@@ -641,6 +656,269 @@ def part_builtin(pc, binp, k, _):
     pc.log("loaded %d documents of real built-in components with secrets: %d mismatches" % (len(docs), nbad))
 
 
+# ------------------------------------------------------------------ clause (d) over the REAL built-in components
+# specs/ConfigValidate/BuiltinSettings.tla: table of the settings of the built-in factories with alternative valid values; TLC
+# generates the documents (every single write, every pair of writes within a component, seeded random larger subsets) together with
+# the statement-level effective configuration (paths that differ from the factory defaults); the driver loads each document through
+# the same path with the real factories and hands back conf.Marshal of the typed configuration; compared at EVERY path with the
+# factory defaults (taken from the factories at run time: `settings` mode) overlaid by what TLC printed.
+BS_COMPS = ["exporters/otlphttp", "exporters/otlp", "exporters/debug", "receivers/otlp", "processors/batch",
+            "processors/memory_limiter", "extensions/memory_limiter", "extensions/zpages"]
+
+
+def bs_cfg(maxw, comps, invs, switch=False):
+    return """SPECIFICATION BSpec
+CONSTANTS
+  MaxWrites = %d
+  Comps = %s
+  SwitchErases = %s
+INVARIANTS %s
+CHECK_DEADLOCK FALSE
+""" % (maxw, q(comps), "TRUE" if switch else "FALSE", invs)
+
+
+def tok_value(tok):
+    """value token of the table (JSON text with single quotes) -> value"""
+    if tok == "[REDACTED]":          # Marker of the module: how a written secret shows in the effective configuration
+        return tok
+    return json.loads(tok.replace("'", '"'))
+
+
+_DUR = re.compile(r"(\d+(?:\.\d+)?)(ns|us|ms|s|m|h)")
+_UNIT = dict(ns=1, us=10**3, ms=10**6, s=10**9, m=60 * 10**9, h=3600 * 10**9)
+
+
+def dur_ns(text):
+    pos, total = 0, 0
+    for m in _DUR.finditer(text):
+        if m.start() != pos:
+            return None
+        total += float(m.group(1)) * _UNIT[m.group(2)]
+        pos = m.end()
+    return int(round(total)) if pos == len(text) and pos else None
+
+
+def schema_type(schema, path):
+    segs = path.split("::")
+    for row in schema:
+        rs = row["path"].split("::")
+        if len(rs) == len(segs) and all(a == b or a == "*" for a, b in zip(rs, segs)):
+            return row["type"]
+    return None
+
+
+def bs_canon(schema, path, v):
+    """how the confmap encoder renders a value of the setting's Go type: a time.Duration (written as text) is rendered as its
+    number of nanoseconds -- the same value"""
+    if isinstance(v, str) and schema_type(schema, path) == "time.Duration":
+        ns = dur_ns(v)
+        if ns is not None:
+            return ns
+    return v
+
+
+def set_path(m, path, val):
+    segs = path.split("::")
+    for k in segs[:-1]:
+        if not isinstance(m.get(k), dict):
+            m[k] = {}
+        m = m[k]
+    m[segs[-1]] = val
+
+
+def del_path(m, path):
+    segs = path.split("::")
+    for k in segs[:-1]:
+        m = m.get(k) if isinstance(m, dict) else None
+        if m is None:
+            return
+    if isinstance(m, dict):
+        m.pop(segs[-1], None)
+
+
+def all_diffs(want, got, path, out):
+    if isinstance(want, dict) and isinstance(got, dict):
+        for k in sorted(set(want) | set(got)):
+            sub = (path + "::" + k) if path else k
+            if k not in want:
+                out.append((sub, "<absent>", got[k]))
+            elif k not in got:
+                out.append((sub, want[k], "<absent>"))
+            else:
+                all_diffs(want[k], got[k], sub, out)
+    elif isinstance(want, bool) != isinstance(got, bool) or want != got:
+        out.append((path, want, got))
+
+
+def bs_render(d):
+    cls, typ = d["c"].split("/")
+    body = {}
+    for w in d["w"]:
+        set_path(body, w["p"], tok_value(w["v"]))
+    doc = {"receivers": {"nop": None}, "exporters": {"nop": None},
+           "service": {"pipelines": {"traces": {"receivers": ["nop"], "exporters": ["nop"]}}}}
+    doc.setdefault(cls, {})[typ] = body or None
+    pl = doc["service"]["pipelines"]["traces"]
+    if cls in ("receivers", "exporters"):
+        pl[cls] = [typ]
+        if cls == "receivers":
+            del doc["receivers"]["nop"]
+        else:
+            del doc["exporters"]["nop"]
+    elif cls == "processors":
+        pl["processors"] = [typ]
+    elif cls == "extensions":
+        doc["service"]["extensions"] = [typ]
+    return json.dumps(doc)
+
+
+def bs_expected(st, d):
+    import copy
+    exp = copy.deepcopy(st["defaults"][d["c"]])
+    for sect in d["absent"]:
+        set_path(exp, sect, None)          # a section that is not there is a nil pointer: rendered as null
+    for e in d["eff"]:
+        set_path(exp, e["p"], bs_canon(st["schema"][d["c"]], e["p"], tok_value(e["v"])))
+    return exp
+
+
+def bs_settings(pc, binp):
+    out = os.path.join(pc.work, "bs_settings.ndjson")
+    pc.run([binp, "settings", out], timeout=300)
+    st = dict(defaults={}, schema={})
+    for r in vlib.read_ndjson(out):
+        if r.get("err"):
+            raise vlib.Inconclusive("default configuration of %s/%s cannot be marshalled: %s" % (r["class"], r["type"], r["err"]))
+        st["defaults"]["%s/%s" % (r["class"], r["type"])] = r["defaults"] or {}
+        st["schema"]["%s/%s" % (r["class"], r["type"])] = r["schema"] or []
+    missing = [x for x in BS_COMPS if x not in st["defaults"]]
+    if missing:
+        raise vlib.Inconclusive("built-in factories missing from the driver: %s" % missing)
+    return st
+
+
+def bs_load(pc, binp, docs, label, alone=False):
+    inp = os.path.join(pc.work, "bs_%s.ndjson" % label)
+    out = os.path.join(pc.work, "bs_%s_res.ndjson" % label)
+    for d in docs:
+        if d.get("_doc") is None:
+            d["_doc"] = bs_render(d)
+    vlib.write_ndjson(inp, [dict(doc=d["_doc"]) for d in docs])
+    pc.run([binp, "overlay-builtin", inp, out], timeout=1800, env=dict(os.environ, CFGVALIDATE_WORKERS="1") if alone else None)
+    res = vlib.read_ndjson(out)
+    if len(res) != len(docs):
+        raise vlib.Inconclusive("driver loaded %d of %d built-in documents" % (len(res), len(docs)))
+    return res
+
+
+def bs_compare(st, d, o):
+    """-> None (skipped: the document did not load / validate), or the list of (path, expected, observed)"""
+    if o.get("panic"):
+        return [("(load)", "no panic", "panic: %s" % o["panic"])]
+    if o.get("err"):
+        return None
+    cls, typ = d["c"].split("/")
+    got = (o.get("eff") or {}).get(cls, {}).get(typ)
+    diffs = []
+    all_diffs(bs_expected(st, d), got if got is not None else {}, "", diffs)
+    return diffs
+
+
+def bs_check_docs(pc, binp, st, docs, label):
+    """loads the documents, compares, confirms every kind of mismatch on its own and reports it; -> (loaded, skipped, mismatching docs)"""
+    res = bs_load(pc, binp, docs, label)
+    groups, skipped, nbad = {}, [], 0
+    for d, o in zip(docs, res):
+        diffs = bs_compare(st, d, o)
+        if diffs is None:
+            skipped.append((d, o))
+            continue
+        if diffs:
+            nbad += 1
+        for path, want, got in diffs:
+            groups.setdefault((d["c"], path), []).append((d, want, got))
+    for n, ((comp, path), hits) in enumerate(sorted(groups.items(), key=lambda kv: (len(kv[1][0][0]["w"]), kv[0]))):
+        hits.sort(key=lambda h: len(h[0]["w"]))
+        d = hits[0][0]
+        # confirm: the smallest document of the group alone, in a fresh process, one goroutine
+        again = bs_compare(st, d, bs_load(pc, binp, [d], label + "_confirm", alone=True)[0]) or []
+        same = [x for x in again if x[0] == path]
+        if not same:
+            raise vlib.Inconclusive("built-in document differed at %s::%s in the batch but not when loaded alone: %s" % (comp, path, d["_doc"][:300]))
+        _, want, got = same[0]
+        written = sorted("%s=%s" % (w["p"], w["v"]) for w in d["w"])
+        own = any(w["p"] == path or w["p"].startswith(path + "::") or path.startswith(w["p"] + "::") for w in d["w"])
+        why = ("built-in component %s: effective / typed configuration is not 'factory defaults overlaid by exactly the written keys' at %s: "
+               "expected %s, observed %s (%s); written keys: %s; %d generated documents differ at this path" % (
+                   comp, path, json.dumps(want)[:200], json.dumps(got)[:200],
+                   "a WRITTEN key is not reflected" if own else "this key was NOT written: it must show the factory default",
+                   ", ".join(written), len(hits)))
+        if n < 8:
+            pc.violation(why + "; document " + d["_doc"][:400], replay_obj=dict(kind="builtin-overlay", doc={k: v for k, v in d.items() if k != "_doc"}),
+                         signature="C13:builtin-overlay:%s:%s:observed=%s" % (path, "written" if own else "unwritten", json.dumps(got, sort_keys=True)[:60]))
+    pc.log("loaded %d documents of real built-in components (%s): %d skipped (rejected by the loader), %d differ from the overlay, %d kinds of mismatch" % (
+        len(docs), label, len(skipped), nbad, len(groups)))
+    return res, skipped, nbad
+
+
+def part_builtin_overlay(pc, binp, k, mode):
+    """first clause over the real built-in components.  mode: (MaxWrites exhaustive, pair sample or None, simulated subsets, depth)"""
+    maxw, pair_sample, nsim, depth = mode
+    st = bs_settings(pc, binp)
+    r = pc.tlc("ConfigValidate", "BuiltinSettingsGen", cfg_text=bs_cfg(maxw, BS_COMPS, "Faithful EmitDoc"), workers=1, timeout=1500,
+               label="bsettings", count=True, heap="4g")
+    if not r.ok:
+        raise vlib.Inconclusive("BuiltinSettings design check / generator failed: %s\n%s" % (r.error, (r.trace_text or r.out)[-1500:]))
+    docs = dedup(r.printed)
+    if not docs:
+        raise vlib.Inconclusive("BuiltinSettings generator printed nothing")
+    # negative control: the decoder hook in which a switch write erases a sibling subtree is refuted by the model
+    rn = pc.tlc("ConfigValidate", "BuiltinSettings", cfg_text=bs_cfg(2, ["exporters/otlphttp"], "Faithful", switch=True), workers=1, timeout=600,
+                label="bsettings_switch", count=False)
+    if rn.ok or not rn.error or rn.error[0] != "invariant":
+        raise vlib.Inconclusive("BuiltinSettings with SwitchErases=TRUE should violate Faithful (the model lost its bite): %s" % (rn.error,))
+    singles = [d for d in docs if d["n"] <= 1]
+    pairs = [d for d in docs if d["n"] == 2]
+    more = [d for d in docs if d["n"] > 2]
+    if pair_sample is not None and len(pairs) > pair_sample:
+        pairs = pc.rng.sample(pairs, pair_sample)
+    big = []
+    if nsim:
+        rs = pc.tlc("ConfigValidate", "BuiltinSettingsGen", cfg_text=bs_cfg(depth, BS_COMPS, "EmitDoc"), workers=1, timeout=900,
+                    simulate="num=%d" % nsim, depth=depth + 1, seed=pc.seed, label="bsettings_sim", count=False, heap="4g")
+        if not rs.ok and not rs.printed:
+            raise vlib.Inconclusive("BuiltinSettings simulation failed: %s" % (rs.error,))
+        big = [d for d in dedup(rs.printed) if d["n"] > 2]
+    res1, skipped1, bad1 = bs_check_docs(pc, binp, st, singles, "singles")
+    rest = pairs + more + big
+    res2, skipped2, bad2 = [], [], 0
+    for i in range(0, len(rest), 20000):          # (bounded memory: the driver hands back a whole component configuration per document)
+        r2, s2, b2 = bs_check_docs(pc, binp, st, rest[i:i + 20000], "subsets%d" % (i // 20000))
+        res2 = res2 or r2
+        skipped2 += s2
+        bad2 += b2
+    ndocs = len(singles) + len(rest)
+    pc.total += ndocs
+    pc.nontrivial += sum(1 for d in singles + rest if d["n"] >= 2)
+    nrows = len({(d["c"], w["p"]) for d in singles for w in d["own"]})
+    nleaf = sum(len(st["schema"][c]) for c in BS_COMPS)
+    pc.c.extra["builtin_overlay"] = dict(
+        components=len(BS_COMPS), setting_paths_in_table=nrows, schema_leaf_paths=nleaf,
+        documents=ndocs, single_write_documents=len(singles), pair_documents=len(pairs), larger_subset_documents=len(more) + len(big),
+        skipped_rejected_by_loader=len(skipped1) + len(skipped2), skipped_singles=len(skipped1), mismatching_documents=bad1 + bad2)
+    if len(skipped1) > len(singles) // 15:
+        # vacuity guard (after the subsets have been compared: violations observed there win over this)
+        raise vlib.Inconclusive("%d of %d single-write documents of built-in components were rejected by the loader, e.g. %s: %s" % (
+            len(skipped1), len(singles), skipped1[-1][0]["_doc"][:200], skipped1[-1][1]["err"][:200]))
+    pick = [i for i, d in enumerate(rest) if d["c"] == "exporters/otlphttp" and any(w["p"] == "sending_queue::enabled" for w in d["own"])
+            and any(w["p"].startswith("sending_queue::batch") for w in d["own"]) and i < len(res2) and not res2[i].get("err")]
+    if pick:
+        i = pick[0]
+        cls, typ = rest[i]["c"].split("/")
+        pc.sample(dict(kind="built-in document", doc=rest[i]["_doc"], specified_differs_from_defaults=rest[i]["eff"],
+                       observed_sending_queue=((res2[i].get("eff") or {}).get(cls, {}).get(typ) or {}).get("sending_queue")))
+
+
 def overlay_cfg(loads, writes, defects, invs, share=False, fastpath=False):
     return """SPECIFICATION OSpec
 CONSTANTS
@@ -777,6 +1055,10 @@ def run(c):
         if rp.get("kind") == "builtin":
             part_builtin(Part(c, 0), binp, 0, None)
             c.sample(dict(kind="replayed built-in documents", doc=rp["doc"]["doc"]))
+        elif rp.get("kind") == "builtin-overlay":
+            pc = Part(c, 0)
+            bs_check_docs(pc, binp, bs_settings(pc, binp), [rp["doc"]], "replay")
+            c.sample(dict(kind="replayed built-in document", doc=rp["doc"].get("_doc")))
         elif rp.get("kind") == "seq":
             run_histories(c, binp, [rp["loads"]], "replay")
             c.sample(dict(kind="replayed history", docs=[ld["_doc"] for ld in rp["loads"]]))
@@ -804,9 +1086,10 @@ def run(c):
     # the parts are independent: they run side by side (own PRNG each, see Part)
     from concurrent.futures import ThreadPoolExecutor
     jobs = [(part_docs, k, u) for k, u in enumerate(universes)] + [(part_walk, k, w) for k, w in enumerate(walks)] + \
-           [(part_overlay, k, ov) for k, ov in enumerate(ovs)] + [(part_builtin, 0, None)]
+           [(part_overlay, k, ov) for k, ov in enumerate(ovs)] + [(part_builtin, 0, None)] + \
+           [(part_builtin_overlay, 0, (2, None, 40, 5) if qk else (2, None, 1500, 8))]
     parts = [Part(c, n) for n in range(len(jobs))]
-    with ThreadPoolExecutor(max_workers=6 if qk else 4) as ex:
+    with ThreadPoolExecutor(max_workers=7 if qk else 4) as ex:
         futs = [ex.submit(fn, pc, binp, k, arg) for pc, (fn, k, arg) in zip(parts, jobs)]
         errs = []
         for f in futs:
@@ -838,14 +1121,23 @@ def run(c):
                              "written secret-typed value (configopaque.String as field, pointer, slice element, map value, inside a struct "
                              "in a map / slice, in a squashed struct) replaced by the redaction marker, and no written secret text occurs "
                              "anywhere in the marshalled effective configuration -- also for real otlphttp exporter / otlp receiver "
-                             "documents (headers, response_headers, TLS pem). NOT covered: per-field faithfulness of the built-in components' "
-                             "own config structs beyond those secret settings, the rendering of unwritten empty secrets (undocumented), what "
-                             "an extension actually receives via NotifyConfig, the Validate() rules of built-in components themselves")
+                             "documents (headers, response_headers, TLS pem); (e) the same clause over the REAL built-in components "
+                             "(BuiltinSettings.tla): for every single write, every pair of writes within a component and seeded larger "
+                             "subsets of ~200 setting paths of the otlp receiver, batch / memory_limiter processors, otlp / otlphttp / debug "
+                             "exporters and zpages / memory_limiter extensions, the marshalled typed configuration equals the factory "
+                             "defaults overlaid by exactly the written keys at every path (counts in coverage.builtin_overlay; documents "
+                             "whose value combination the loader rejects give no verdict). NOT covered: built-in settings that reference "
+                             "other components (auth, middlewares), the deprecated otlp exporter `batcher` section, zero values of "
+                             "omitempty settings, the rendering of unwritten empty secrets (undocumented), what an extension actually "
+                             "receives via NotifyConfig, the Validate() rules of built-in components themselves")
     c.assumptions += ["'names the offending entry' is checked as: one line of the joined error contains the pipeline id and the quoted "
                       "component id (resp. the extension / connector id) of at least one offending entry the specification lists; for an "
                       "unknown key: the decoder's error lists the key after 'invalid keys:' and contains the place's path elements",
                       "components are test factories (one type per id) whose config has real fields: endpoint, limit, nested{flag,name}, "
                       "table{row{weight}}",
+                      "built-in components: the factory defaults are what CreateDefaultConfig of the real factory marshals to at run time; "
+                      "the values of the settings table (BuiltinSettings.tla) are valid values per the components' documentation; a time.Duration "
+                      "written as text is compared by value with the nanoseconds the encoder renders; a section that is not there is rendered null",
                       "path segments of the validation walk that are conventions of the code (lower-cased field name for untagged and "
                       "squashed fields, '-' for fields tagged '-') are compared as model drift, not as violations"]
     c.finish_args = dict(rule="every configuration of the C09 builder with at most MaxSize references followed by at most MaxDefects defect "
